@@ -12,7 +12,8 @@ THEOREMS = [
 RULE = ("plans with scale 1..127, 0..20 points, 0..30 entries, every action code x flag combination (incl. unused flag bits), runs of "
         "'same as previous' (also as first entry), 1..5-byte variable-length times/durations/delays incl. padded encodings, durations at "
         "2^24 and 2^24+1, cumulative times near 2^32, point indices in and out of range; evaluation at {-inf,<0,-0,0,every cumulative "
-        "time and ±0.5/±1, +inf, NaN, 1e12}; every point index; meta data. Plus structurally damaged plans. Non-trivial: >= 1 entry.")
+        "time and ±0.5/±1/±0.001/±0.0005 and its two binary32 neighbours, +inf, NaN, 1e12}; every point index; meta data; the empty plan of "
+        "sb_rth_plan_init_empty made on an object that is not zero-filled. Plus structurally damaged plans. Non-trivial: >= 1 entry.")
 
 
 def generate(rng, tier):
@@ -26,6 +27,8 @@ def generate(rng, tier):
         out.append((f"rth {hx(blk)} " + " ".join(qs), len(times) > 0))
         for t in eval_times(rng, times):
             out.append((f"rth {hx(blk)} e{t}", len(times) > 0))
+    # the empty plan made by sb_rth_plan_init_empty (on an object that is not zero-filled)
+    out.append(("rth - m p0 " + " ".join(f"e{t}" for t in eval_times(rng, [0, 1, 15, 1000])), True))
     # entry counts with bit 15 set (the count is an unsigned 16-bit field): long runs of 'same as previous'
     # (the list-based model is quadratic in the plan size: few queries per plan)
     for nent, goto in ([(32768, False)] if tier != "thorough" else [(32767, True), (32768, False), (40000, True), (65535, True), (65535, False)]):
